@@ -11,6 +11,9 @@ machine but the heap, and only through `Gc.collect`/`Gc.run`.
 The VM-level statement of the property (independence of result/output/exception from the
 schedule) is checked by running every program under many schedules on both the real VM and
 this model in lockstep (checks/c04.py); `roots_complete_at_safe_points` is not proved.
+Placement of collections at heap level: `collect_preserves_liveness` (same reachable set after as
+before), `collect_preserves_reachable_graph` (same edges), `collect_twice_defined` (a second
+collection at the same point is defined and changes no object), `collect_keeps_wellTyped`.
 -/
 namespace Never.C04
 open Never Mem
@@ -37,6 +40,102 @@ theorem collect_preserves_edges {g g' : Gc} {st : List Slot} {gp : Nat} (inv : I
   obtain ⟨hx0, hxo, root, hroot, p⟩ := hx
   exact ⟨hr0, hro, root, hroot, Path.tail p ⟨o, ho, hr⟩⟩
 
+/-- paths after a collection are paths before it: a collection creates no reference -/
+theorem collect_path_back {g g' : Gc} {st : List Slot} {gp : Nat} (inv : Inv g)
+    (wt : g.wellTyped (.collect st gp) = true) (h : g.collect st gp = some g')
+    {r x : Nat} (p : Path g'.mem r x) : Path g.mem r x := by
+  obtain ⟨_, e2, k2, _⟩ := C09.collect_exact inv wt h
+  induction p with
+  | refl => exact Path.refl _
+  | tail q e ih =>
+    obtain ⟨o, ho, hr⟩ := e
+    rename_i b c
+    have hl : Live g.mem (allRoots st gp) b := (e2 b).mp (by rw [ho]; rfl)
+    exact Path.tail ih ⟨o, by rw [← k2 b hl]; exact ho, hr⟩
+
+/-- paths from a root that exist before a collection exist after it -/
+theorem collect_path_forth {g g' : Gc} {st : List Slot} {gp : Nat} (inv : Inv g)
+    (wt : g.wellTyped (.collect st gp) = true) (h : g.collect st gp = some g')
+    {r x : Nat} (hr : r ∈ allRoots st gp) (p : Path g.mem r x) : Path g'.mem r x := by
+  obtain ⟨_, _, k2, _⟩ := C09.collect_exact inv wt h
+  obtain ⟨fl, il⟩ := inv
+  induction p with
+  | refl => exact Path.refl _
+  | tail q e ih =>
+    obtain ⟨o, ho, hc⟩ := e
+    rename_i b c
+    have hb0 : b ≠ 0 := by
+      intro hb; rw [hb, il.nil_none] at ho; cases ho
+    have hl : Live g.mem (allRoots st gp) b := ⟨hb0, by rw [ho]; rfl, r, hr, q⟩
+    exact Path.tail ih ⟨o, by rw [k2 b hl]; exact ho, hc⟩
+
+/-- **the program sees the same object graph after a collection as before it**: with the same
+roots, exactly the same cells are reachable (no survivor lost, nothing resurrected, no cell moved) -/
+theorem collect_preserves_liveness {g g' : Gc} {st : List Slot} {gp : Nat} (inv : Inv g)
+    (wt : g.wellTyped (.collect st gp) = true) (h : g.collect st gp = some g') (x : Nat) :
+    Live g'.mem (allRoots st gp) x ↔ Live g.mem (allRoots st gp) x := by
+  obtain ⟨_, e2, _, _⟩ := C09.collect_exact inv wt h
+  constructor
+  · rintro ⟨_, hs, _⟩
+    exact (e2 x).mp hs
+  · intro hl
+    obtain ⟨h0, _, r, hr, p⟩ := hl
+    exact ⟨h0, (e2 x).mpr ⟨h0, ‹_›, r, hr, p⟩, r, hr, collect_path_forth inv wt h hr p⟩
+
+/-- **placement of collections does not matter at heap level**: a second collection right after
+the first (same roots) finds nothing to reclaim and alters no cell's object — so "collect at
+this safe point" and "collect at this safe point twice" leave the same heap contents -/
+theorem collect_twice_same_objects {g g' g'' : Gc} {st : List Slot} {gp : Nat} (inv : Inv g)
+    (wt : g.wellTyped (.collect st gp) = true) (h : g.collect st gp = some g')
+    (wt' : g'.wellTyped (.collect st gp) = true) (h' : g'.collect st gp = some g'') (x : Nat) :
+    objAt g''.mem x = objAt g'.mem x := by
+  obtain ⟨inv', e2, _, _⟩ := C09.collect_exact inv wt h
+  obtain ⟨_, e2', k2', _⟩ := C09.collect_exact inv' wt' h'
+  by_cases hl : Live g.mem (allRoots st gp) x
+  · exact k2' x ((collect_preserves_liveness inv wt h x).mpr hl)
+  · have h1 : ¬ (objAt g'.mem x).isSome = true := fun hs => hl ((e2 x).mp hs)
+    have h2 : ¬ (objAt g''.mem x).isSome = true := fun hs =>
+      hl ((collect_preserves_liveness inv wt h x).mp ((e2' x).mp hs))
+    cases ha : objAt g'.mem x <;> cases hb : objAt g''.mem x <;> simp_all
+
+/-- the precondition of a collection (root slots and `gp` inside the heap) survives a collection:
+the heap is never resized -/
+theorem collect_keeps_wellTyped {g g' : Gc} {st st' : List Slot} {gp gp' : Nat} (inv : Inv g)
+    (wt : g.wellTyped (.collect st gp) = true) (h : g.collect st gp = some g') :
+    g'.wellTyped (.collect st' gp') = g.wellTyped (.collect st' gp') := by
+  obtain ⟨fl, il⟩ := inv
+  have wt0 := wt
+  simp only [Gc.wellTyped, Bool.and_eq_true, decide_eq_true_eq] at wt
+  obtain ⟨g2, h2, _, _, _, _, _, hsz⟩ := collect_spec il wt.1 wt.2
+  rw [h2] at h; cases h
+  have hs : ∀ s, slotOk g'.mem s = slotOk g.mem s := by
+    intro s; cases s <;> simp [slotOk, hsz]
+  have hf : slotOk g'.mem = slotOk g.mem := funext hs
+  simp only [Gc.wellTyped, hsz, hf]
+
+/-- **a collection can be placed at any safe point, any number of times**: right after a
+collection a second one (same roots) is defined, reclaims nothing and alters no cell's object -/
+theorem collect_twice_defined {g g' : Gc} {st : List Slot} {gp : Nat} (inv : Inv g)
+    (wt : g.wellTyped (.collect st gp) = true) (h : g.collect st gp = some g') :
+    ∃ g'', g'.collect st gp = some g'' ∧ Inv g'' ∧ ∀ x, objAt g''.mem x = objAt g'.mem x := by
+  have wt' : g'.wellTyped (.collect st gp) = true := by rw [collect_keeps_wellTyped inv wt h]; exact wt
+  obtain ⟨inv', _⟩ := C09.collect_exact inv wt h
+  have hd := C09.collect_defined inv' wt'
+  cases h' : g'.collect st gp with
+  | none => rw [h'] at hd; cases hd
+  | some g'' =>
+    exact ⟨g'', rfl, (C09.collect_exact inv' wt' h').1, collect_twice_same_objects inv wt h wt' h'⟩
+
+/-- what a cell reachable before the collection points at is reachable after it with the same
+contents, to any depth: the whole reachable graph is isomorphic (identity map) -/
+theorem collect_preserves_reachable_graph {g g' : Gc} {st : List Slot} {gp : Nat} (inv : Inv g)
+    (wt : g.wellTyped (.collect st gp) = true) (h : g.collect st gp = some g')
+    {x y : Nat} (hx : Live g.mem (allRoots st gp) x) :
+    Edge g'.mem x y ↔ Edge g.mem x y := by
+  obtain ⟨_, _, k2, _⟩ := C09.collect_exact inv wt h
+  unfold Edge
+  rw [k2 x hx]
+
 /-- the collection called from the VM (SLIDE / RET) touches nothing but the heap, and the new
 heap is the result of `Gc.collect` / `Gc.run` on the stack `[0..sp]` and `gp` (or the old heap) -/
 theorem collect_leaves_registers (vm vm' : Vm.Vm) (h : Vm.gcRunPure vm = .ok vm') :
@@ -62,5 +161,18 @@ theorem collect_leaves_registers (vm vm' : Vm.Vm) (h : Vm.gcRunPure vm = .ok vm'
 /-- a concrete non-trivial instance of the hypotheses -/
 example : Inv ((Gc.new 6).exec C09.exPrefix) ∧ ((Gc.new 6).exec C09.exPrefix).wellTyped C09.exCollect = true :=
   ⟨C09.inv_history 6 (by decide) _, by decide +kernel⟩
+
+/-- … and on that state the collection is defined, so `collect_preserves_liveness` and
+`collect_twice_defined` speak about an actual collection, twice over -/
+example : ∃ g' g'', ((Gc.new 6).exec C09.exPrefix).collect [.addr 4, .stk 3, .unknown] 1 = some g' ∧
+    g'.collect [.addr 4, .stk 3, .unknown] 1 = some g'' ∧ ∀ x, objAt g''.mem x = objAt g'.mem x := by
+  have inv : Inv ((Gc.new 6).exec C09.exPrefix) := C09.inv_history 6 (by decide) _
+  have wt : ((Gc.new 6).exec C09.exPrefix).wellTyped C09.exCollect = true := by decide +kernel
+  have hd := C09.collect_defined inv wt
+  cases h : ((Gc.new 6).exec C09.exPrefix).collect [.addr 4, .stk 3, .unknown] 1 with
+  | none => rw [h] at hd; cases hd
+  | some g' =>
+    obtain ⟨g'', h2, _, h3⟩ := collect_twice_defined inv wt h
+    exact ⟨g', g'', rfl, h2, h3⟩
 
 end Never.C04
